@@ -40,15 +40,20 @@ type wsScn struct {
 	reply     [][]byte
 	upEnd     string // close | wait
 	hsStatus  string
+	pause     int64 // virtual time the client stays silent before every segment but the first
 }
 
 func (s wsScn) String() string {
-	return fmt.Sprintf("ws client-segments=%d client-then=%s handshake=%q reply-bytes-with-handshake=%d reply-segments=%d upstream-then=%s", len(s.segs), s.clientEnd, s.hsStatus, s.hsExtra, len(s.reply), s.upEnd)
+	p := ""
+	if s.pause > 0 {
+		p = fmt.Sprintf(" client-pauses=%v", time.Duration(s.pause))
+	}
+	return fmt.Sprintf("ws client-segments=%d client-then=%s handshake=%q reply-bytes-with-handshake=%d reply-segments=%d upstream-then=%s%s", len(s.segs), s.clientEnd, s.hsStatus, s.hsExtra, len(s.reply), s.upEnd, p)
 }
 
 func TestVerifC09Websocket(t *testing.T) {
 	L := ev.Begin("C09", "c09-websocket", "model_checking",
-		"controlled scheduler over the real websocket relay (newWSHandler: go statements and errc rewritten, dial function and hijacked connection are in-memory connections): client payload segmentation x client then {open, half-close, close} x upstream handshake {101, 101 with the first reply bytes in the same segment, 400} x reply segments x upstream then {close, wait}; every interleaving up to the preemption bound. oracle: the upstream receives the upgrade request followed by exactly the client's bytes (prefix; complete when the client finished first or the tunnel stays open), the client receives the handshake response followed by the reply bytes; a failed handshake is relayed and ends the connection")
+		"controlled scheduler over the real websocket relay (newWSHandler: go statements and errc rewritten, dial function and hijacked connection are in-memory connections): client payload segmentation x client then {open, half-close, close} x upstream handshake {101, 101 with the first reply bytes in the same segment, 400} x reply segments x upstream then {close, wait} x a client that pauses 2.5s / 61s of virtual time between its segments (connection deadlines are honoured on the virtual clock); every interleaving up to the preemption bound. oracle: the upstream receives the upgrade request followed by exactly the client's bytes (prefix; complete when the client finished first or the tunnel stays open), the client receives the handshake response followed by the reply bytes; a failed handshake is relayed and ends the connection")
 	payload := []byte("ws-frame-bytes")
 	reply := []byte("SERVER-FRAMES")
 	var scs []wsScn
@@ -57,13 +62,19 @@ func TestVerifC09Websocket(t *testing.T) {
 			for _, hx := range []int{0, 4} {
 				for _, rp := range [][][]byte{{reply}, {reply[:6], reply[6:]}} {
 					for _, ue := range []string{"close", "wait"} {
-						scs = append(scs, wsScn{sp, ce, hx, rp, ue, "101"})
+						scs = append(scs, wsScn{sp, ce, hx, rp, ue, "101", 0})
 					}
 				}
 			}
 		}
 	}
-	scs = append(scs, wsScn{[][]byte{payload}, "open", 0, nil, "close", "400"})
+	scs = append(scs, wsScn{[][]byte{payload}, "open", 0, nil, "close", "400", 0})
+	// a client that goes on talking after a pause longer than any handshake time limit (connection
+	// deadlines run on the virtual clock)
+	for _, ce := range []string{"open", "half"} {
+		scs = append(scs, wsScn{[][]byte{payload[:3], payload[3:]}, ce, 0, [][]byte{reply}, "wait", "101", int64(2500 * time.Millisecond)})
+		scs = append(scs, wsScn{[][]byte{payload[:3], payload[3:7], payload[7:]}, ce, 4, [][]byte{reply[:6], reply[6:]}, "wait", "101", int64(61 * time.Second)})
+	}
 	bound := 1
 	if ev.Thorough() {
 		bound = 2
@@ -74,7 +85,7 @@ func TestVerifC09Websocket(t *testing.T) {
 		if sn > 1 && i%sn != si {
 			continue
 		}
-		if !ev.Thorough() && i%4 != 0 && s.hsStatus == "101" {
+		if !ev.Thorough() && i%4 != 0 && s.hsStatus == "101" && s.pause == 0 {
 			continue
 		}
 		s := s
@@ -94,7 +105,10 @@ func TestVerifC09Websocket(t *testing.T) {
 			fullReply := bytes.Join(s.reply, nil)
 			x.Go("handler", func() { h.ServeHTTP(rw, req); in.Close() })
 			x.Go("client", func() {
-				for _, seg := range s.segs {
+				for k, seg := range s.segs {
+					if k > 0 && s.pause > 0 {
+						vsched.Sleep(s.pause)
+					}
 					if _, err := client.Write(seg); err != nil {
 						return
 					}
